@@ -42,6 +42,23 @@ def fnTable : String → Option (Item → Res)
       | .bool b => if b then .ok true else .raise "Other:ZeroDivisionError"
       | _ => .raise "Other:TypeError")
   | "has_ctx" => some (fun v => .ok (match v.ctx with | some l => nonEmpty l | none => false))
+  -- other exception classes (the class name is data for the model)
+  | "raise_attr" => some (fun _ => .raise "Other:AttributeError")
+  | "raise_val" => some (fun _ => .raise "Other:ValueError")
+  | "raise_rt" => some (fun _ => .raise "Other:RuntimeError")
+  | "raise_assert" => some (fun _ => .raise "Other:AssertionError")
+  | "raise_custom" => some (fun _ => .raise "Other:_Custom")
+  | "raise_key" => some (fun _ => .raise "Other:KeyError")
+  | "raise_os" => some (fun _ => .raise "Other:OSError")
+  | "raise_stop" => some (fun _ => .raise "Other:StopIteration")
+  -- callables that return a value that is no bool: the model keeps its truth value
+  | "five" => some (fun _ => .ok true)
+  | "zero" => some (fun _ => .ok false)
+  | "empty" => some (fun _ => .ok false)
+  | "xstr" => some (fun _ => .ok true)
+  | "none" => some (fun _ => .ok false)
+  | "data" => some (fun v => .ok (match v.data with     -- `lambda v: get_data(v)`: selected iff the data is true
+      | .none => false | .bool b => b | .int i => i != 0 | .str s => s != "" | .tuple => true))
   | _ => none
 
 def predTable : String → Option (Val → Res)
@@ -59,6 +76,10 @@ def predTable : String → Option (Val → Res)
       | .leaf (.int i) => .ok (decide (i = 1))
       | .leaf (.bool b) => .ok b
       | _ => .ok false)
+  | "ident" => some (fun v => .ok v.truthy)          -- `lambda sc: sc`: the truth value of the sub-context
+  | "raise_attr" => some (fun _ => .raise "Other:AttributeError")
+  | "raise_custom" => some (fun _ => .raise "Other:_Custom")
+  | "raise_stop" => some (fun _ => .raise "Other:StopIteration")
   | _ => none
 
 def clsTable : String → Option PyClass
@@ -226,8 +247,8 @@ def semFields (names : List String) (spec : Spec) (roe : Bool) (top : String) (v
   let r := if top == "filter" then true else roe
   let semTop : Item → Res := fun v => if top == "filter" then sem names true spec v else absorb roe (sem names roe spec v)
   let fold : Option (Item → Res) := match spec with
-    | .list l => some (fun v => absorb r (orRes (l.map (fun s => sem names r s v))))
-    | .tuple l => some (fun v => absorb r (andRes (l.map (fun s => sem names r s v))))
+    | .list l => some (fun v => absorb r (orRes (l.map (fun s => pep479 (sem names r s v)))))
+    | .tuple l => some (fun v => absorb r (andRes (l.map (fun s => pep479 (sem names r s v)))))
     | _ => none
   [("sem", ofList (fun v => resJson (semTop v)) vals),
    ("semFold", ofOpt (fun f => ofList (fun v => resJson (f v)) vals) fold),
@@ -292,6 +313,9 @@ def handle (j : Json) : Json :=
           let specRun := ((beforeError names o vals).filter (fun v => call names o v = .ok true), firstError names o vals)
           Json.mkObj ([("r", ofList (fun v => resJson (call names o v)) vals)] ++ runOutJson names (filterRun names o vals)
             ++ [("fill", ofList (fun v => resJson (filterFillInto names o v)) vals),
+                ("fillAll", Json.mkObj (runOutJson names (fillIntoAll names o [] vals))),
+                ("fillAll_eq_spec", Json.bool (decide (fillIntoAll names o [] vals =
+                  ((beforeError names o vals).filter (fun v => call names o v = .ok true), firstRaise names o vals)))),
                 ("specRun_eq_model", Json.bool (decide (specRun = filterRun names o vals)))] ++ semFields names spec roe top vals)
       | _, _, _ => err "bad select args"
     | some "filterseq" =>
@@ -378,6 +402,7 @@ def handle (j : Json) : Json :=
                    ("keyP_eq_model", Json.bool (ctxs.all (fun c => decide (keepL (polarity I E d) 0 c = getL t 0 c)))),
                    ("keySel_eq_model", Json.bool (ctxs.all (fun c => decide (keepL (sel I E d) 0 c = getL t 0 c)))),
                    ("groupsOf_eq_model", Json.bool (decide (groupsOf (groupKey w t) okItems = gs))),
+                   ("skip_eq_model", Json.bool (decide (gbFillSkip w t [] items = gs))),
                    ("wf", Json.bool (items.all (fun v => wfV w (.dict (v.context w))))),
                    ("agreeC_iff_key", Json.bool (pairs.all (fun ab =>
                       agreeOnB (selC I E d) (.dict ab.1) (.dict ab.2) == decide (getL t 0 ab.1 = getL t 0 ab.2)))),
